@@ -29,6 +29,8 @@ type C15Case struct {
 	Funcs  []C15Func         `json:"funcs"`
 	Pkg    []string          `json:"pkg"`    // optional package-level declaration blocks included
 	DotDep bool              `json:"dotdep"` // the second dep package is dot-imported
+	// DeclsFirst puts the package-level declaration block before the probe functions.
+	DeclsFirst bool `json:"declsfirst"`
 }
 
 type C15Func struct {
@@ -198,6 +200,7 @@ func genC15() *rapid.Generator[*C15Case] {
 			}
 			importNames[n] = true
 		}
+		cs.DeclsFirst = rapid.Bool().Draw(t, "declsfirst")
 		nf := rapid.IntRange(1, 5).Draw(t, "nfuncs")
 		for fi := 0; fi < nf; fi++ {
 			var fn C15Func
@@ -295,9 +298,10 @@ func (cs *C15Case) files(prog string) map[string]string {
 	}
 	w.WriteString("\t\"github.com/google/wire\"\n)\n\n")
 	w.WriteString("// InitBox builds a box.\nfunc InitBox() " + cs.importName("D") + ".Box {\n\twire.Build(NewBox)\n\treturn " + cs.importName("D") + ".Box{}\n}\n\n")
-	// keep every import used even when no function mentions it
-	w.WriteString(cs.subst("var _ = []interface{}{F.Sprint, SC.Itoa, ST.Join, E.New}\n"))
-	w.WriteString(cs.subst(c15PkgDecls))
+	declsFirst := cs.DeclsFirst
+	if declsFirst {
+		w.WriteString(cs.subst(c15PkgDecls))
+	}
 	var probe strings.Builder
 	probe.WriteString("package app\n\n// ZzProbe exercises the copied declarations.\nfunc ZzProbe() string {\n\ts := \"\"\n")
 	for fi, fn := range cs.Funcs {
@@ -319,8 +323,17 @@ func (cs *C15Case) files(prog string) map[string]string {
 		w.WriteString("\treturn\n}\n")
 		fmt.Fprintf(&probe, "\ts += Probe%d(1) + \"|\" + Probe%d(4) + \"|\"\n", fi, fi)
 	}
-	probe.WriteString("\ts += table[\"a\"].name()\n\treturn s\n}\n\nfunc (h handler) name() string { v, _ := h(counter); return v }\n")
+	if !declsFirst {
+		w.WriteString(cs.subst(c15PkgDecls))
+	}
+	// keep every import used even when no function mentions it (last, so that a probe
+	// function can be the first copied declaration to mention a package)
+	w.WriteString(cs.subst("\nvar _ = []interface{}{F.Sprint, SC.Itoa, ST.Join, E.New}\n"))
+	probe.WriteString("\ts += table[\"a\"].name() + Second(3)\n\treturn s\n}\n\nfunc (h handler) name() string { v, _ := h(counter); return v }\n")
 	out["decls.go"] = w.String()
+	// a second injector file that spells another package with the same local import name
+	da := cs.importName("D")
+	out["decls2.go"] = "//go:build wireinject\n\npackage app\n\nimport (\n\t" + da + " \"" + base + "/other/dep\"\n\tlb \"" + base + "/lib\"\n\n\t\"github.com/google/wire\"\n)\n\n// InitBox2 is a second injector, in a second file.\nfunc InitBox2() lb.Box {\n\twire.Build(NewBox)\n\treturn lb.Box{}\n}\n\n// Second uses the other package that is also called dep.\nfunc Second(a int) string { return " + da + ".Helper(a) + lb.Helper(a) }\n"
 	out["zz_probe.go"] = probe.String()
 	return out
 }
@@ -471,11 +484,15 @@ func (dc *declCmp) cmp(a, b reflect.Value, path string) {
 // compareCopied checks that wire_gen.go contains exactly the non-injector,
 // non-import declarations of the injector file, once each, in order,
 // structurally identical up to qualifiers and numbered renaming.
-func compareCopied(src, gen string, injectors map[string]bool) []string {
+func compareCopied(srcs []string, gen string, injectors map[string]bool) []string {
 	fset := token.NewFileSet()
-	sf, err := parser.ParseFile(fset, "decls.go", src, parser.ParseComments)
-	if err != nil {
-		return []string{"source does not parse: " + err.Error()}
+	var sfs []*ast.File
+	for i, src := range srcs {
+		sf, err := parser.ParseFile(fset, fmt.Sprintf("decls%d.go", i), src, parser.ParseComments)
+		if err != nil {
+			return []string{"source does not parse: " + err.Error()}
+		}
+		sfs = append(sfs, sf)
 	}
 	gf, err := parser.ParseFile(fset, "wire_gen.go", gen, parser.ParseComments)
 	if err != nil {
@@ -503,13 +520,22 @@ func compareCopied(src, gen string, injectors map[string]bool) []string {
 		}
 		return out
 	}
-	sd, gd := pick(sf, false), pick(gf, true)
+	var sd []ast.Decl
+	var owner []*ast.File
+	for _, sf := range sfs {
+		for _, d := range pick(sf, false) {
+			sd = append(sd, d)
+			owner = append(owner, sf)
+		}
+	}
+	gd := pick(gf, true)
 	if len(sd) != len(gd) {
-		return []string{fmt.Sprintf("the injector file has %d non-injector declarations, the generated file %d", len(sd), len(gd))}
+		return []string{fmt.Sprintf("the injector files have %d non-injector declarations, the generated file %d", len(sd), len(gd))}
 	}
 	stdDefaults := map[string]string{}
-	dc := &declCmp{srcImports: importTable(sf, stdDefaults), genImports: importTable(gf, stdDefaults)}
+	dc := &declCmp{genImports: importTable(gf, stdDefaults)}
 	for i := range sd {
+		dc.srcImports = importTable(owner[i], stdDefaults)
 		dc.cmp(reflect.ValueOf(sd[i]), reflect.ValueOf(gd[i]), fmt.Sprintf("decl[%d]", i))
 	}
 	return dc.problems
@@ -534,7 +560,7 @@ func nodeKinds(src string) map[string]bool {
 
 type c15Obs struct {
 	Gen      *ProgObs
-	Src, Out string
+	Src, Src2, Out string
 	BuildErr string
 	ProbeInj string // output of the probe built with -tags wireinject (original declarations)
 	ProbeGen string // output of the probe built without the tag (copies)
@@ -566,6 +592,7 @@ func c15Eval(c *Ctx) func([]*C15Case) []c15Obs {
 				n := fmt.Sprintf("d%05d", i)
 				fs := cs[i].files(n)
 				out[i].Src = fs["decls.go"]
+				out[i].Src2 = fs["decls2.go"]
 				w.AddProg(n, fs)
 				names = append(names, n)
 			}
@@ -696,7 +723,7 @@ func judgeC15(c *Ctx, cs *C15Case, o c15Obs, count bool) *Fail {
 			c.Class("kind=" + k)
 		}
 	}
-	if probs := compareCopied(o.Src, o.Out, map[string]bool{"InitBox": true}); len(probs) > 0 {
+	if probs := compareCopied([]string{o.Src, o.Src2}, o.Out, map[string]bool{"InitBox": true, "InitBox2": true}); len(probs) > 0 {
 		return Failf("C15 copied declarations are not structurally identical to the originals", "%s\n--- wire_gen.go\n%s", strings.Join(probs, "\n"), o.Out)
 	}
 	if o.BuildErr != "" {
